@@ -2,7 +2,7 @@
    was an open statement).  Model: coq/model/Mmr.v (sp_new_from_batch_append, sp_verify_v1);
    specification: coq/spec/MmrSpec.v; proofs: coq/proofs/MmrSuccComplete.v. *)
 From Coq Require Import ZArith List Bool.
-From TF Require Import Word MmrIdxLocal Mmr MmrSpec MmrTerm MmrProofs MmrSuccRej MmrSuccComplete.
+From TF Require Import Word MmrIndexGen MmrIndex MmrIdxLocal Mmr MmrSpec MmrTerm MmrProofs MmrSuccRej MmrSuccComplete MmrIdxTie.
 Import ListNotations.
 Open Scope Z_scope.
 
@@ -49,3 +49,30 @@ Theorem C12_complete_rejections : forall (D : Type) (H : D -> D -> D) (deq : D -
      (sp' = sp /\ op' = peaks_spec D H dflt ls) \/ collision D H).
 Proof. exact sp_complete_rejections. Qed.
 Print Assumptions C12_complete_rejections.
+
+(* the index functions of the MMR model are the REGENERATED ones: every index function of model/MmrIdxLocal.v
+   (the hand-written functions model/Mmr.v calls) equals, on ALL u64 arguments and including the panic / overflow
+   outcome None, the corresponding function of C16 - the straight-line functions of gen/MmrIndexGen.v (translated
+   from shared_basic.rs / shared_advanced.rs on every run) guarded by their generated side conditions f_ok, and
+   the loops of model/MmrIndex.v around them.  So every C12 theorem (props/C12.v, props/C12b.v) is a theorem about the index code of the
+   current source: a change of an index function in /repo changes gen/MmrIndexGen.v and this theorem has to be
+   re-proved against it. *)
+Theorem C12_index_functions_regenerated :
+  (forall i n, 0 <= i -> 0 <= n < 2 ^ 64 -> li_mt_pk i n = mm_leaf_index_to_mt_index_and_peak_index i n) /\
+  (forall i, 0 <= i < 2 ^ 64 -> rll_leaf i = mm_right_lineage_length_from_leaf_index i) /\
+  (forall x, 0 <= x < 2 ^ 64 -> MmrIdxLocal.leftmost_ancestor x = mm_leftmost_ancestor x) /\
+  (forall i, 0 <= i < 2 ^ 64 -> l2n i = mm_leaf_index_to_node_index i) /\
+  (forall n, 0 <= n < 2 ^ 64 -> num_nodes n = mm_num_leafs_to_num_nodes n) /\
+  (forall x h, 0 <= x < 2 ^ 64 -> 0 <= h < 2 ^ 32 -> MmrIdxLocal.left_sibling x h = mm_left_sibling x h) /\
+  (forall x h, 0 <= x < 2 ^ 64 -> 0 <= h < 2 ^ 32 -> MmrIdxLocal.right_sibling x h = mm_right_sibling x h) /\
+  (forall x, 0 <= x < 2 ^ 64 -> rll_and_height x = mm_right_lineage_length_and_own_height x) /\
+  (forall x, 0 <= x < 2 ^ 64 -> rll_node x = mm_right_lineage_length_from_node_index x) /\
+  (forall x, 0 <= x < 2 ^ 64 -> parent x = mm_parent x) /\
+  (forall n, 0 <= n < 2 ^ 64 -> node_indices_added_by_append n = mm_node_indices_added_by_append n) /\
+  (forall start peak nc, 0 <= start < 2 ^ 64 ->
+     get_authentication_path_node_indices start peak nc = mm_get_authentication_path_node_indices start peak nc) /\
+  (forall n, 0 <= n < 2 ^ 64 ->
+     mm_get_peak_heights_and_peak_node_indices n =
+     match peak_heights_and_indices n with Some l => Some (map fst l, map snd l) | None => None end).
+Proof. exact index_functions_regenerated. Qed.
+Print Assumptions C12_index_functions_regenerated.
